@@ -136,6 +136,7 @@ func runStoreCase(o *emitter, u *Universe, ci, blocks, maxBig int) {
 			}
 			return "differs"
 		}
+		sigSuffix := "" // ":empty-block" / ":after-rollback": which part of the history the root at hand closes
 		checkRoot := func(got []byte, what string, stale bool) {
 			want, _, err := scanRoot(st)
 			if err != nil {
@@ -156,7 +157,7 @@ func runStoreCase(o *emitter, u *Universe, ci, blocks, maxBig int) {
 					o.Count("store:stale-cached-root-observed")
 					return
 				}
-				o.Fail("C08:root-not-canonical", fmt.Sprintf("%s: root %x, canonical commitment of the scanned state %x", what, got, want2), hist)
+				o.Fail("C08:root-not-canonical"+sigSuffix, fmt.Sprintf("%s: root %x, canonical commitment of the scanned state %x", what, got, want2), hist)
 			}
 		}
 		// copyAndCheck: Store.Copy() is a second store with the same content; whatever is written to the clone, its Root()
@@ -207,10 +208,25 @@ func runStoreCase(o *emitter, u *Universe, ci, blocks, maxBig int) {
 			cp.Discard()
 			rec("cdiscard", "ok")
 		}
+		snaps := map[uint64]map[int][]byte{} // the oracle's record of the state committed for every height
+		afterRollback, extended := false, false
 		for b := 0; b < blocks; b++ {
 			size := 1 + r.Intn(15)
 			if r.Intn(2) == 0 {
 				size = 16 + r.Intn(maxBig-15)
+			}
+			// EMPTY blocks (Commit with no pending operation) at every position, incl. the very first commits of a
+			// fresh database, with and without a Root() before the Commit()
+			if (b < 2 && ci%3 == 0) || r.Intn(7) == 0 {
+				size = 0
+				o.Count("store:empty-block")
+			}
+			sigSuffix = ""
+			if size == 0 {
+				sigSuffix = ":empty-block"
+			}
+			if afterRollback {
+				sigSuffix = ":after-rollback"
 			}
 			rootCached := false
 			dirtyAfterRoot := false
@@ -310,6 +326,7 @@ func runStoreCase(o *emitter, u *Universe, ci, blocks, maxBig int) {
 			for k, v := range state {
 				committed[k] = v
 			}
+			snaps[st.Version()] = committed
 			// re-open: a new Store object over the same database must continue from the committed tree
 			if r.Intn(3) == 0 {
 				st.Discard()
@@ -320,6 +337,42 @@ func runStoreCase(o *emitter, u *Universe, ci, blocks, maxBig int) {
 				st = st2
 				rec("reopen", fmt.Sprintf("version %d", st.Version()))
 				o.Count("store:reopen")
+			}
+			// ROLLBACK below the tip (a fork is abandoned), then further heights with other keys: the tree the next
+			// heights are built on must be the tree committed for the target, not the abandoned fork's
+			if v := st.Version(); v >= 2 && r.Intn(4) == 0 {
+				target := 1 + uint64(r.Intn(int(v-1)))
+				o.Try(fmt.Sprintf("rollback %d", target))
+				if e := st.Rollback(target); e != nil {
+					panic(e)
+				}
+				rec(fmt.Sprintf("rollback %d", target), fmt.Sprintf("version %d", st.Version()))
+				o.Count("store:rollback")
+				state, committed = map[int][]byte{}, map[int][]byte{}
+				for k, val := range snaps[target] {
+					state[k], committed[k] = val, val
+				}
+				for h := range snaps {
+					if h > target {
+						delete(snaps, h)
+					}
+				}
+				afterRollback = true
+				if r.Intn(2) == 0 {
+					// the root of the rolled-back store before anything is written
+					sigSuffix = ":after-rollback"
+					got, e := st.Root()
+					if e != nil {
+						panic(e)
+					}
+					rec("root", "root "+drv.Hex(got)+" l0 "+l0(got))
+					checkRoot(got, "Root() after Rollback()", false)
+					st.Reset()
+					rec("reset", "ok")
+				}
+				if b == blocks-1 && !extended {
+					blocks, extended = blocks+1, true // at least one new height on top of the target
+				}
 			}
 		}
 		if ci < 2 {
